@@ -71,6 +71,8 @@ let () =
           | _ -> raise (Parse_error ("bad event " ^ e))) evs_txt in
       let evs = List.map (fun (c, r, s) -> ((intern ("c:" ^ c), intern ("r:" ^ r)), intern ("s:" ^ s))) parsed in
       let s0 = intern ("s:" ^ f.(3)) in
+      List.iter (fun (_, r, _) -> if String.length r > 0 && r.[0] = 'E' then count "error_results"
+                                  else if String.length r > 0 && r.[0] = 'P' then count "panic_results") parsed;
       let distinct = List.length (List.sort_uniq compare (List.map (fun (c, _, _) -> c) parsed)) in
       Hashtbl.replace counters "events" (List.length evs + (try Hashtbl.find counters "events" with Not_found -> 0));
       Hashtbl.replace counters "distinct_calls" (distinct + (try Hashtbl.find counters "distinct_calls" with Not_found -> 0));
@@ -80,7 +82,13 @@ let () =
         | Some (i, kind) ->
           let i = int_of_nat i in
           let (c, _, _) = List.nth parsed i in
-          let name = if int_of_nat kind = 0 then "operand_changed" else "nondeterministic_result" in
+          let (_, r, _) = List.nth parsed i in
+          let is_err t = String.length t > 0 && (t.[0] = 'E' || t.[0] = 'P') in
+          (* an error (or panic) text is part of the result: when either of the differing results of
+             this call is one, the failure is named after the property's "same error" clause *)
+          let other_err = List.exists (fun (c', r', _) -> c' = c && is_err r') parsed in
+          let name = if int_of_nat kind = 0 then "operand_changed"
+            else if is_err r || other_err then "nondeterministic_error" else "nondeterministic_result" in
           fail id "SPEC" name (trunc (Printf.sprintf "event %d call %s pool %s :: %s" i c f.(2) f.(7)))
         | None -> fail id "CORR" "history_checker_inconsistent" ""
       end;
